@@ -15,6 +15,7 @@ LEVEL = "exploration"
 RULE = ("grid of tick period x per-tasker periods (zero, smaller, equal, multiples, non-multiples, decimal) x "
         "declaration orders x front/mid/back x optional period-changing bid / abort bid; one case = one skedder run; "
         "distinct = distinct (P, periods, orders, bid) tuple; non-trivial = at least 2 taskers ran >= 3 times")
+RULE = __import__("vf.core", fromlist=["rule_add"]).rule_add(RULE, 'also period-raising grids: a tasker that ran with a period below the tick is given a period of 2, 3 or 8 ticks by a bid (its own or another tasker\'s) and follows its accumulated due times')
 META = {"engine": "A floscript", "technique": "runtime trace monitor vs exact-rational schedule model",
         "level_text": "Every send of every tasker in every tick of each generated run is compared with the ideal schedule "
                       "computed in exact rational arithmetic; grid part is enumerated exhaustively, the rest seeded random.",
